@@ -30,6 +30,9 @@ def explore(ctx):
         if rng.random() < 0.4:
             c['npix'] = [rng.randint(2, 3), 1]
         c['layout'] = rng.choice(['C', 'C', 'F', 'strided', 'readonly', 'T'])
+        if len(c['shape']) in (2, 3) and c['adj'][0] == 'grid' and rng.random() < 0.2:
+            c['adj'] = ['grid', [rng.random() < 0.7 for _ in c['shape']]]      # more wrap-around adjacency
+            c.pop('per_scalar', None)
         int_stream = rng.random() < 0.2
         if int_stream:
             # integer data reaching both ends of the dtype (0 for unsigned types), default threshold: a loaded
@@ -80,6 +83,20 @@ def explore(ctx):
                 # whether a dendrogram can be saved and loaded is C09's question (a failure there is reported by
                 # ./check C09); here there is simply no loaded dendrogram whose accessors could be examined
                 ctx.count('loaded_variant_unavailable/%s' % type(e).__name__)
+        if len(c['shape']) in (2, 3) and rng.random() < 0.4:
+            # building a catalog (which un-wraps structures on periodic data) must leave the accessors alone
+            import warnings as _w
+            from astropy import units as _u
+            from astrodendro.analysis import pp_catalog, ppv_catalog
+            for _, dd in variants:
+                try:
+                    with _w.catch_warnings():
+                        _w.simplefilter('ignore')
+                        (pp_catalog if len(c['shape']) == 2 else ppv_catalog)(dd, {'data_unit': _u.Jy}, verbose=False)
+                except Exception:
+                    pass                                    # whether a catalog can be built is C12's question
+            history = history + ['catalog']
+            ctx.count('catalog_before_accessors')
         for kind, dd in variants:
             ctx.count('dendrogram=' + kind)
             ctx.count('layout=' + c['layout'])
